@@ -52,6 +52,10 @@ type workerSummary struct {
 
 const detEvery = 97
 
+// setCap bounds the per-worker sets of interleaving / state digests (evidence counts
+// are then lower bounds); the set of distinct non-trivial cases is always exact.
+const setCap = 250000
+
 func eventDigest(c *Case, v *Violation, ri *RunInfo) string {
 	return digest(c.Recipe, c.Conc, c.Clone, c.Dict, ri.Frozen, ri.FrozenConc, ri.Inter, ri.States, v, ri.Counters, ri.Key)
 }
@@ -81,11 +85,13 @@ func runWorker(prop Property, tier string, base uint64, from, to int, only map[i
 		if ri.Nontrivial {
 			keys[ri.Key] = true
 		}
-		if ri.Inter != "" {
+		if ri.Inter != "" && len(inters) < setCap {
 			inters[ri.Inter] = true
 		}
 		for _, s := range ri.States {
-			states[s] = true
+			if len(states) < setCap {
+				states[s] = true
+			}
 		}
 		for k, n := range ri.Counters {
 			ws.Counters[k] += n
@@ -628,6 +634,18 @@ func main() {
 			fmt.Printf("VIOLATION rule=%s\n%s\n--- expected\n%s\n--- observed\n%s\n", v.Rule, v.Detail, v.Expected, v.Observed)
 		}
 		fmt.Printf("counters=%v nontrivial=%v\n", ri.Counters, ri.Nontrivial)
+	case "errs":
+		// simrun errs <property> <tier> <index>: print the error text of failing renders (generator tuning aid)
+		prop := properties[os.Args[2]]
+		idx, _ := strconv.Atoi(os.Args[4])
+		c := prop.Gen(RunSeed(baseSeed(), prop.ID(), idx), os.Args[3])
+		if c.Recipe != nil {
+			for _, o := range Exec(c.Recipe, newEnv(newFileSim("identity", 0))) {
+				if o.Render && !o.OK {
+					fmt.Println(strings.SplitN(o.Err+o.Panic, "\n", 2)[0])
+				}
+			}
+		}
 	case "gen":
 		// simrun gen <property> <tier> <seed>: print the case a seed generates
 		prop := properties[os.Args[2]]
